@@ -159,6 +159,13 @@ func (o *Object) Write(rootGoitPath string) error {
 func (o *Object) ReflectToWorkingTree(rootGoitPath, path string) error {
 	rootDir := filepath.Dir(rootGoitPath)
 	filePath := filepath.Join(rootDir, path)
+
+	// make sure the parent directory exists
+	parentPath := filepath.Dir(filePath)
+	if err := os.MkdirAll(parentPath, os.ModePerm); err != nil {
+		return fmt.Errorf("fail to make directory %s: %w", parentPath, err)
+	}
+
 	f, err := os.Create(filePath)
 	if err != nil {
 		return fmt.Errorf("fail to create file %s: %w", filePath, err)
